@@ -174,6 +174,25 @@ void FnEmitter::emitCall(const CallBase& CB) {
       else body << "  { " << ty(F.getReturnType()) << " vf_z; memset(&vf_z, 0, sizeof vf_z); return vf_z; }\n";
       return;
     }
+    if ((n == "malloc" || n == "_Znwm" || n == "_Znam") && !isa<ConstantInt>(CB.getArgOperand(0))) {
+      // symbolic-size allocation used as T[]: malloc(sizeof(T) * (n / sizeof(T))) gives CBMC a typed array object
+      Type* found = nullptr;
+      for (const User* U : CB.users())
+        if (auto* BC = dyn_cast<BitCastInst>(U)) {
+          Type* PT = BC->getType()->getPointerElementType();
+          if (PT->isSized() && !PT->isFunctionTy() && T.DL.getTypeAllocSize(PT) > 0 &&
+              (PT->isIntegerTy() || PT->isPointerTy() || PT->isFloatingPointTy() || PT->isStructTy())) {
+            if (!found || T.DL.getTypeAllocSize(PT) > T.DL.getTypeAllocSize(found)) found = PT;
+          }
+        }
+      if (found) {
+        T.externsUsed.insert(n.str());
+        std::string sz = "(uint64_t)" + val(CB.getArgOperand(0));
+        body << "  " << lname[&CB] << " = (char*)malloc(sizeof(" << ty(found) << ") * (" << sz << " / sizeof(" << ty(found)
+             << "))); VF_ASSUME(" << lname[&CB] << " != 0);\n";
+        return;
+      }
+    }
     if ((n == "malloc" || n == "_Znwm" || n == "_Znam") && isa<ConstantInt>(CB.getArgOperand(0))) {
       // typed allocation: malloc(C) whose result is bitcast to S* with sizeof(S) dividing C becomes
       // malloc(k * sizeof(struct S)), so that CBMC creates a typed (field-sensitive) dynamic object
